@@ -142,11 +142,11 @@ func OwnRevsDomain() *Domain {
 // HistoryDomain: revision populations for truncation and for the update-revision lookup.
 //
 //	dims: set template (t0..t3, t3 may be unlisted -> create), curRev (5: t0.0 t1.0 t2.0 "" gone), histLimit (0..2),
-//	      numbering (3: ascending, descending, ties), collisions (0..1), squatter on the natural name (2),
+//	      numbering (3: ascending, descending, ties), collisions (0..1), squatter on the natural name (3: none, foreign, own and newest),
 //	      4 revision slots: 1 + 3 owners(self,none,other) * 3 label shapes ; 2 pods: absent | rev label in 4 (t0.0 t1.0 t2.0 t3.0) x (healthy, terminating)
 func HistoryDomain() *Domain {
 	per := 1 + 3*3
-	dims := []int{4, 5, 3, 3, 2, 2, per, per, per, per, 9, 9}
+	dims := []int{4, 5, 3, 3, 2, 3, per, per, per, per, 9, 9}
 	d := &Domain{Name: "history(4 revisions, 2 pods)", Dims: dims}
 	d.Make = func(ix []int) *Scenario {
 		sc := &Scenario{Dom: ix}
@@ -184,8 +184,9 @@ func HistoryDomain() *Domain {
 			sc.Revs = append(sc.Revs, RevSpec{Name: tid + ".0", Tmpl: tid, Num: num, Created: created, Owner: owner,
 				Marker: marker, NoSel: shape == 1})
 		}
-		if ix[5] == 1 {
-			// a foreign, unlabelled revision squatting on the name the controller would pick for the set's template
+		if ix[5] >= 1 {
+			// a revision squatting on the name the controller would pick for the set's template, with other data:
+			// 1: a foreign, unlabelled one; 2: one of the set's own, and the newest of its history (a true hash collision)
 			nm := fmt.Sprintf("%s.%d", s.Tmpl, s.Collisions)
 			taken := false
 			for _, r := range sc.Revs {
@@ -198,7 +199,11 @@ func HistoryDomain() *Domain {
 				if s.Tmpl == "t0" {
 					other = "t1"
 				}
-				sc.Revs = append(sc.Revs, RevSpec{Name: nm, Tmpl: other, Num: 9, Created: 50, Owner: "other", NoSel: true})
+				if ix[5] == 1 {
+					sc.Revs = append(sc.Revs, RevSpec{Name: nm, Tmpl: other, Num: 9, Created: 50, Owner: "other", NoSel: true})
+				} else {
+					sc.Revs = append(sc.Revs, RevSpec{Name: nm, Tmpl: other, Num: 9, Created: 950, Owner: "self"})
+				}
 			}
 		}
 		for o := 0; o < 2; o++ {
